@@ -20,7 +20,7 @@ tvars == <<lvars, l, postOf, cbal, obs>>
 
 Trace == ndJsonDeserialize(TraceFile)
 
-NoObs == [h |-> 0, liab |-> <<>>, rew |-> <<>>, time |-> 0, rel |-> <<>>, app |-> <<>>, pays |-> <<>>]
+NoObs == [h |-> 0, liab |-> <<>>, rew |-> <<>>, time |-> 0, rel |-> <<>>, app |-> <<>>, pays |-> <<>>, unpaid |-> 0]
 
 TInit == LInit /\ l = 1 /\ postOf = <<>> /\ cbal = <<>> /\ obs = NoObs /\ TLCSet(1, 1)
 
@@ -98,6 +98,14 @@ RewardStep(old, new) ==
                                          /\ o.hist[k].znn = n.hist[j].znn /\ o.hist[k].qsr = n.hist[j].qsr)
     /\ \A k \in 1..Len(o.hist) : \E j \in 1..Len(n.hist) : n.hist[j].e = o.hist[k].e
 
+\* C11 "each contract rewards each epoch exactly once": a contract that pays every epoch unconditionally (the liquidity contract
+\* before its spork) pays, in the momentum in which its cursor advances by d epochs, exactly d epochs
+UnpaidEpochs(old, new) ==
+  LET S == {i \in 1..Len(new) : new[i].unconditional}
+  IN IF S = {} THEN 0
+     ELSE LET i == CHOOSE k \in S : TRUE  n == new[i]  o == OldRew(old, n.c)
+          IN (n.last - o.last) - n.paid
+
 TMom == /\ IsEvent("Mom")
         /\ Confirm(E.sids)
         /\ cbal' = FoldPost(cbal, postOf, E.bids)
@@ -105,7 +113,8 @@ TMom == /\ IsEvent("Mom")
         /\ \A i \in 1..Len(E.cpost) : Get(cbal', <<E.cpost[i].a, E.cpost[i].t>>, BZero) = E.cpost[i].v
         /\ postOf' = [b \in DOMAIN postOf \ {E.bids[i] : i \in 1..Len(E.bids)} |-> postOf[b]]
         /\ RewardStep(obs.rew, E.rew)
-        /\ obs' = [h |-> E.h, liab |-> E.liab, rew |-> E.rew, time |-> E.time, rel |-> E.rel, app |-> E.app, pays |-> E.pays]
+        /\ obs' = [h |-> E.h, liab |-> E.liab, rew |-> E.rew, time |-> E.time, rel |-> E.rel, app |-> E.app, pays |-> E.pays,
+                   unpaid |-> UnpaidEpochs(obs.rew, E.rew)]
 
 TNext == TReset \/ TGenesis \/ TSend \/ TRecv \/ TMisRecv \/ TCRecv \/ TMom
 
@@ -130,6 +139,8 @@ ReleaseOK(r) ==
                                   \/ \E i \in 1..Len(obs.app) : obs.app[i].owner = r.owner /\ obs.app[i].kind \in {"pillar", "sentinel-qsr"}
     [] OTHER -> PaidInWindow(r, r.owner)                \* pillar and sentinel collateral
 ReleasedRight == \A i \in 1..Len(obs.rel) : ReleaseOK(obs.rel[i])
+
+EveryConsumedEpochPaid == obs.unpaid = 0
 
 HighWater == TLCSet(1, IF TLCGet(1) > l THEN TLCGet(1) ELSE l)
 Accepted == IF TLCGet(1) = Len(Trace) + 1 THEN TRUE ELSE PrintT(<<"REJECTED_AT", TLCGet(1)>>) /\ FALSE
